@@ -27,6 +27,10 @@ Definition neutral (lo : option definition) (cond : bool) (d : definition) : boo
   negb (match lo with Some d0 => definition_eqb d0 d | None => false end) &&
   (negb cond || match kind_of d with KJumpIf _ | KElse => false | _ => true end).
 
+(* the nodes whose index becomes a data operand (and whose literal is parsed) *)
+Definition uses_data (d : definition) : bool :=
+  match kind_of d with KValue _ true | KFixApply _ | KInfix => true | _ => false end.
+
 (* data operands seen through a labelling of the nodes *)
 Definition ren (f : nat -> nat) (i : instr) : instr :=
   match snd i with OData n => (fst i, OData (f n)) | _ => i end.
@@ -59,7 +63,7 @@ Fixpoint grel (lo : option definition) (cond : bool) (t' t : tree) {struct t'} :
   | T ix' d' l' r' =>
     (match t with
      | T ix d l r =>
-       d' = d /\ f' ix' = f ix /\ lit' ix' = lit ix /\
+       d' = d /\ (uses_data d = true -> f' ix' = f ix) /\ (uses_data d = true -> lit' ix' = lit ix) /\
        match l', l with
        | Some a', Some a => grel (clo d) (ccl d) a' a
        | None, None => True
@@ -204,13 +208,14 @@ Proof.
   fold (orel (clo d) (ccl d) l' l) in Hl. fold (orel (clo d) (ccr d) r' r) in Hr.
   pose proof (orel_present _ _ _ _ Hl) as Hpl. pose proof (orel_present _ _ _ _ Hr) as Hpr.
   cbn [inl]. cbn [cx_containing cx_list cx_cond]. unfold plain.
-  unfold clo, ccl, ccr in Hl, Hr.
+  unfold clo, ccl, ccr in Hl, Hr. unfold uses_data in Hf, Hlit.
   destruct (kind_of d) eqn:K.
   - (* KValue *)
-    apply seq2_rel; [apply sub_rel; assumption|]. intros s1' s1 Hv1. rewrite Hlit.
-    destruct (with_data && negb (lit ix)); [reflexivity|].
-    apply sub_rel; try assumption. apply veq_emit; [assumption|].
-    destruct with_data; [apply ren_data; assumption|reflexivity].
+    apply seq2_rel; [apply sub_rel; assumption|]. intros s1' s1 Hv1.
+    destruct with_data; cbn [andb].
+    + rewrite (Hlit eq_refl). destruct (negb (lit ix)); [reflexivity|].
+      apply sub_rel; try assumption. apply veq_emit; [assumption|]. apply ren_data; apply Hf; reflexivity.
+    + apply sub_rel; try assumption. apply veq_emit; [assumption|reflexivity].
   - (* KUnary *)
     destruct child_right.
     + apply seq2_rel; [apply req_rel; assumption|]. intros s1' s1 Hv1. apply ret_rel. plain_emit. assumption.
@@ -296,16 +301,16 @@ Proof.
     rewrite Hpl, Hpr. destruct (negb (present r && present l)); [reflexivity|].
     apply seq2_rel; [apply req_rel; assumption|]. intros s1' s1 Hv1. apply req_rel; try assumption. plain_emit. assumption.
   - (* KFixApply *)
-    rewrite Hlit. destruct (negb (lit ix)); [reflexivity|].
+    rewrite (Hlit eq_refl). destruct (negb (lit ix)); [reflexivity|].
     assert (Hv1 : veq (emit s' (I_Resolve, OData ix') None) (emit s (I_Resolve, OData ix) None)).
-    { apply veq_emit; [assumption|apply ren_data; assumption]. }
+    { apply veq_emit; [assumption|apply ren_data; apply Hf; reflexivity]. }
     destruct child_right.
     + apply seq2_rel; [apply req_rel; assumption|]. intros s2' s2 Hv2. apply ret_rel. plain_emit. assumption.
     + apply seq2_rel; [apply req_rel; assumption|]. intros s2' s2 Hv2. apply sub_rel; try assumption. plain_emit. assumption.
   - (* KInfix *)
-    rewrite Hlit. destruct (negb (lit ix)); [reflexivity|].
+    rewrite (Hlit eq_refl). destruct (negb (lit ix)); [reflexivity|].
     assert (Hv1 : veq (emit s' (I_Resolve, OData ix') None) (emit s (I_Resolve, OData ix) None)).
-    { apply veq_emit; [assumption|apply ren_data; assumption]. }
+    { apply veq_emit; [assumption|apply ren_data; apply Hf; reflexivity]. }
     rewrite Hpl, Hpr. destruct (negb (present r && present l)); [reflexivity|].
     apply seq2_rel; [apply req_rel; assumption|]. intros s2' s2 Hv2.
     apply seq2_rel; [apply req_rel; assumption|]. intros s3' s3 Hv3. apply ret_rel. plain_emit. plain_emit. assumption.
@@ -509,7 +514,7 @@ Proof. induction l as [|[i [|n|n|n]] l IH]; cbn [map]; rewrite ?IH; reflexivity.
 Lemma grel_refl lit : forall t lo cond, grel lit lit idn idn lo cond t t.
 Proof.
   induction t as [ix d l r IHl IHr] using tree_ind'. intros lo cond. cbn [grel]. left.
-  repeat split.
+  split; [reflexivity|]. split; [reflexivity|]. split; [reflexivity|]. split.
   - destruct l as [a|]; [apply (IHl a eq_refl)|exact I].
   - destruct r as [b|]; [apply (IHr b eq_refl)|exact I].
 Qed.
@@ -520,7 +525,7 @@ Lemma grel_group_intro lit' lit f' f lo cond g u' t :
 Proof. intros Hn Hg. cbn [grel]. right. split; [reflexivity|]. split; [reflexivity|]. split; assumption. Qed.
 
 Lemma grel_node_intro lit' lit f' f lo cond ix' ix d l' l r' r :
-  f' ix' = f ix -> lit' ix' = lit ix ->
+  (uses_data d = true -> f' ix' = f ix) -> (uses_data d = true -> lit' ix' = lit ix) ->
   orel lit' lit f' f (clo d) (ccl d) l' l -> orel lit' lit f' f (clo d) (ccr d) r' r ->
   grel lit' lit f' f lo cond (T ix' d l' r') (T ix d l r).
 Proof. intros Hf Hl Ha Hb. cbn [grel]. left. split; [reflexivity|]. split; [assumption|]. split; [assumption|]. split; assumption. Qed.
